@@ -362,6 +362,7 @@ func c14(r *R) {
 	r.Set("iteration_orders_executed_for_Keys", orders)
 	c14Collections(r, maps)
 	c14SliceToMap(r)
+	c14Stateful(r)
 }
 
 func c14Collections(r *R, maps []map[string]int) {
@@ -542,10 +543,20 @@ func c14SliceToMap(r *R) {
 	vs := enum.AllSlices([]int{0, 1}, 3)
 	for _, k := range ks {
 		for _, v := range vs {
+			// the same two lists as prefixes of longer buffers (spare capacity holding other values): the
+			// contract is about lengths, whatever lies behind them
+			kk, vv := append(make([]string, 0, len(k)+3), k...), append(make([]int, 0, len(v)+3), v...)
+			copy(kk[len(k):cap(kk)], []string{"X", "Y", "Z"})
+			copy(vv[len(v):cap(vv)], []int{7, 8, 9})
+			var got2 map[string]int
+			p2, _ := enum.Try(func() { got2 = gogu.SliceToMap(kk, vv) })
 			var got map[string]int
 			p, _ := enum.Try(func() { got = gogu.SliceToMap(cp(k), cp(v)) })
 			r.Eval("SliceToMap")
 			wit := fmt.Sprintf("SliceToMap(%v,%v)", k, v)
+			if p2 != p || (!p && !meq(got, got2)) {
+				r.Bad("SliceToMap/depends-on-spare-capacity", wit, "with exact slices: panic=%t result %v; as prefixes of longer buffers: panic=%t result %v", p, got, p2, got2)
+			}
 			if len(k) != len(v) {
 				if !p {
 					r.Bad("SliceToMap/unequal-lengths-accepted", wit, "returned %v", got)
@@ -568,4 +579,79 @@ func c14SliceToMap(r *R) {
 			}
 		}
 	}
+}
+
+
+// c14Stateful: the selecting helpers ask their callback exactly once per entry. With a stateful predicate
+// ("accept the first j entries I am asked about") the result holds exactly min(j, len) entries of the map
+// (which ones depends on the iteration order), the complement helper the others, and the callback has
+// been asked len(m) times -- for every map of the family and every j.
+func c14Stateful(r *R) {
+	for n := 0; n <= 4; n++ {
+		m := map[string]int{}
+		for i := 0; i < n; i++ {
+			m[string(rune('a'+i))] = i + 1
+		}
+		for j := 0; j <= n+1; j++ {
+			type res struct {
+				name  string
+				got   map[string]int
+				calls int
+				want  int
+			}
+			var out []res
+			mk := func() (func() bool, *int) {
+				c := 0
+				return func() bool { c++; return c <= j }, &c
+			}
+			f, c := mk()
+			out = append(out, res{"FilterMap", gogu.FilterMap(mcopy(m), func(int) bool { return f() }), 0, minInt(j, n)})
+			out[len(out)-1].calls = *c
+			f, c = mk()
+			out = append(out, res{"PickBy", gogu.PickBy(mcopy(m), func(string, int) bool { return f() }), 0, minInt(j, n)})
+			out[len(out)-1].calls = *c
+			f, c = mk()
+			out = append(out, res{"OmitBy", gogu.OmitBy(mcopy(m), func(string, int) bool { return f() }), 0, n - minInt(j, n)})
+			out[len(out)-1].calls = *c
+			for _, o := range out {
+				r.Eval(o.name + "/stateful-callback")
+				wit := fmt.Sprintf("%s(%s, accept the first %d entries asked about)", o.name, mstr(m), j)
+				if o.calls != n {
+					r.Bad(o.name+"/callback-not-asked-exactly-once-per-entry", wit, "the callback was asked %d times, want %d", o.calls, n)
+					continue
+				}
+				ok := len(o.got) == o.want
+				for k, v := range o.got {
+					if mv, in := m[k]; !in || mv != v {
+						ok = false
+					}
+				}
+				if !ok {
+					r.Bad(o.name+"/wrong-with-stateful-callback", wit, "got %s, want %d entries of the map", mstr(o.got), o.want)
+				}
+			}
+		}
+		// the transforming helpers call theirs once per entry too
+		calls := 0
+		mv := gogu.MapValues(mcopy(m), func(v int) int { calls++; return v*10 + calls - calls })
+		r.Eval("MapValues/stateful-callback")
+		if calls != n || len(mv) != n {
+			r.Bad("MapValues/callback-not-asked-exactly-once-per-entry", fmt.Sprintf("MapValues(%s)", mstr(m)), "callback called %d times, result has %d entries, want %d", calls, len(mv), n)
+		}
+		calls = 0
+		mk2 := gogu.MapKeys(mcopy(m), func(k string, v int) string { calls++; return k + "!" })
+		r.Eval("MapKeys/stateful-callback")
+		if calls != n || len(mk2) != n {
+			r.Bad("MapKeys/callback-not-asked-exactly-once-per-entry", fmt.Sprintf("MapKeys(%s)", mstr(m)), "callback called %d times, result has %d entries, want %d", calls, len(mk2), n)
+		}
+	}
+	r.Nontrivial("stateful-a")
+	r.Nontrivial("stateful-b")
+}
+
+func minInt(a, b int) int {
+	if a < b {
+		return a
+	}
+	return b
 }
